@@ -34,7 +34,7 @@ Failing(e) ==
        Cl(P(e, "C02.neverExceedsTotal"), \A k \in Keys : e.q_post[k] <= Tot(gp)) \cup
        Cl(P(e, "C02.singleElementExact"), \A k \in Keys : (\A j \in Keys \ {k} : gp[j] = 0) => e.q_post[k] = gp[k]) \cup
        Cl(P(e, "C19.isEmpty"), e.empty_post <=> (Tot(gp) = 0)) \cup
-       Cl("C19.clone", e.twin_ok) \cup
+       Cl("C19.clone", e.twin_ok) \cup LockStepClause(e) \cup
        (IF e.op.name = "add" THEN Cl("C02.addReturnsQuery", e.ret = e.q_post[e.key]) ELSE {}) \cup
        (IF e.op.name = "clear" THEN Cl("C19.clearedAnswersLikeFresh", \A k \in Keys : e.q_post[k] = 0) ELSE {}) \cup
        (IF e.op.name = "merge" THEN
